@@ -33,7 +33,7 @@ struct Side {
   uint32_t lo = 0;     // the low bytes of the 16-bit channels (a8r8g8b8 layout); used when wide16, else the high byte is replicated
   int wide16 = 0;
   Bits bits;
-  int x = 0;
+  int x = 0, y = 0;  // position of the row inside the image
   // the four 16-bit channels handed to pixman_image_create_solid_fill (a, r, g, b)
   void chan16(uint32_t out[4]) const {
     for (int k = 0; k < 4; k++) {
@@ -48,13 +48,16 @@ struct Side {
     a.f("wide16", wide16);
     a.f("bits", bits);
     a.f("x", x);
+    a.f("y", y);
   }
 };
 struct CCase {
   int op = 0, mask_kind = 0, width = 1, dst_repeat = 0;
+  int pixbuf = 0;  // the mask is a second image (a8r8g8b8 / a8b8g8r8) on the storage of the x8r8g8b8 / x8b8g8r8 source
   Side src, mask, dst;
   template <class A> void io(A &a) {
     a.f("op", op);
+    a.f("pixbuf", pixbuf);
     a.f("mask_kind", mask_kind);
     a.f("width", width);
     a.f("dst_repeat", dst_repeat);
@@ -118,7 +121,8 @@ static Side gen_side(bool dst, int width, bool allow_solid) {
   s.x = (int)R(0, 9);
   s.bits = gen_bits(gen_format(dst), 1, 1);
   s.bits.w = width + s.x + (int)R(0, 3);
-  s.bits.h = 1;
+  s.y = coin(25) ? (int)R(1, 2) : 0;
+  s.bits.h = s.y + 1 + (coin(20) ? 1 : 0);
   s.bits.fill = pickw({3, 5, 1, 4, 1, 0, 1});
   return s;
 }
@@ -133,7 +137,30 @@ static CCase gen_case() {
     c.mask = gen_side(false, c.width, true);
     if (!c.mask.solid && c.mask_kind == 1 && coin(60)) c.mask.bits.fmt = fmt_index(PIXMAN_a8);
   }
+  if (coin(6)) {
+    // "pixbuf" requests: non-premultiplied x888 data whose own alpha channel is applied as the mask, by wrapping the same
+    // storage in a second image; the library has special paths for exactly equal source and mask positions
+    c.pixbuf = 1;
+    c.mask_kind = 1;
+    c.src.solid = 0;
+    if (!c.src.bits.w) c.src = gen_side(false, c.width, false);
+    c.src.bits.fmt = fmt_index(coin(50) ? PIXMAN_x8b8g8r8 : PIXMAN_x8r8g8b8);
+    c.src.x = (int)R(0, 2);
+    c.src.y = (int)R(0, 2);
+    c.src.bits.w = c.width + 2 + (int)R(0, 2);
+    c.src.bits.h = 3 + (int)R(0, 1);
+    c.src.bits.fill = pickw({3, 5, 0, 1, 1, 0, 1});
+    c.mask = c.src;
+    c.mask.bits.fmt = fmt_index(c.src.bits.code() == PIXMAN_x8b8g8r8 ? PIXMAN_a8b8g8r8 : PIXMAN_a8r8g8b8);
+    if (coin(45)) {
+      // positions that differ, preferably in one coordinate only or with the coordinates exchanged
+      c.mask.x = (int)R(0, 2);
+      c.mask.y = coin(50) ? c.src.x : (int)R(0, 2);
+    }
+    if (coin(60)) c.op = PIXMAN_OP_OVER;
+  }
   c.dst = gen_side(true, c.width, false);
+  if (c.pixbuf && coin(70)) c.dst.bits.fmt = fmt_index(pick<pixman_format_code_t>({PIXMAN_a8r8g8b8, PIXMAN_x8r8g8b8, PIXMAN_r5g6b5, PIXMAN_a8b8g8r8, PIXMAN_x8b8g8r8}));
   c.dst_repeat = coin(12) ? (int)R(1, 3) : 0;  // a repeating destination is what makes an alpha-less destination "opaque" for the operator table
   return c;
 }
@@ -156,13 +183,13 @@ static Px read_px(const Side &s, const Image *im, int i) {
   }
   pixman_format_code_t f = s.bits.code();
   if (is_float(f)) {
-    const float *q = (const float *)im->rowp(0) + (size_t)(s.x + i) * (bpp(f) / 32);
+    const float *q = (const float *)im->rowp(s.y) + (size_t)(s.x + i) * (bpp(f) / 32);
     p.wide = true;
     p.p8 = 0;
     p.real = rcf::C{bpp(f) == 128 ? (long double)q[3] : 1.0L, q[0], q[1], q[2]};
     return p;
   }
-  uint32_t raw = raw_get(im->rowp(0), bpp(f), s.x + i);
+  uint32_t raw = raw_get(im->rowp(s.y), bpp(f), s.x + i);
   p.wide = !is_narrow(f);
   p.p8 = decode8888(f, raw);
   ColF cf = decode_real(f, raw);
@@ -179,14 +206,18 @@ static pixman_image_t *solid_image(const Side &sd) {
 static Verdict run_case(const CCase &c) {
   Verdict v;
   std::unique_ptr<Image> si, mi, di;
-  pixman_image_t *s = nullptr, *m = nullptr;
+  pixman_image_t *s = nullptr, *m = nullptr, *pixbuf_mask = nullptr;
   if (c.src.solid) s = solid_image(c.src);
   else {
     si = make_image(c.src.bits);
     s = si->im;
   }
   if (c.mask_kind) {
-    if (c.mask.solid) m = solid_image(c.mask);
+    if (c.pixbuf && si) {
+      // a second image object over the source's storage
+      m = pixman_image_create_bits_no_clear(c.mask.bits.code(), si->d.w, si->d.h, (uint32_t *)si->row0, si->stride);
+      pixbuf_mask = m;
+    } else if (c.mask.solid) m = solid_image(c.mask);
     else {
       mi = make_image(c.mask.bits);
       m = mi->im;
@@ -202,7 +233,7 @@ static Verdict run_case(const CCase &c) {
   // remember the destination pixels before drawing
   std::vector<Px> before;
   for (int i = 0; i < c.width; i++) before.push_back(read_px(c.dst, di.get(), i));
-  pixman_image_composite32((pixman_op_t)c.op, s, m, di->im, c.src.x, 0, c.mask.x, 0, c.dst.x, 0, c.width, 1);
+  pixman_image_composite32((pixman_op_t)c.op, s, m, di->im, c.src.x, c.src.y, c.mask.x, c.mask.y, c.dst.x, c.dst.y, c.width, 1);
 
   pixman_format_code_t df = c.dst.bits.code();
   bool all_narrow = is_narrow(df) && (c.src.solid || is_narrow(c.src.bits.code())) && (!c.mask_kind || c.mask.solid || is_narrow(c.mask.bits.code()));
@@ -225,7 +256,7 @@ static Verdict run_case(const CCase &c) {
   int dbits[4] = {abits(df), rbits(df), gbits(df), bbits(df)};
   for (int i = 0; i < c.width && v.ok; i++) {
     Px sp = read_px(c.src, si.get(), i), mp, dp = before[i];
-    if (c.mask_kind) mp = read_px(c.mask, mi.get(), i);
+    if (c.mask_kind) mp = read_px(c.mask, c.pixbuf ? si.get() : mi.get(), i);
     else {
       mp.p8 = 0xffffffff;
       mp.real = rcf::C{1, 1, 1, 1};
@@ -235,7 +266,7 @@ static Verdict run_case(const CCase &c) {
     if (cls == 0) {
       uint32_t want8 = rc8::combine(eff_op, sp.p8, mp.p8, c.mask_kind, dp.p8);
       uint32_t want = encode8888(df, want8);
-      uint32_t got = raw_get(di->rowp(0), bpp(df), c.dst.x + i);
+      uint32_t got = raw_get(di->rowp(c.dst.y), bpp(df), c.dst.x + i);
       if ((got & dm) != (want & dm)) {
         v.fail(fmt("%s %s: pixel %d: src %08x mask %08x(kind %d) dst %08x -> got %x, exact rule gives %x (8-bit result %08x) [dst %s]", opname(c.op).c_str(),
                    c.src.solid ? "solid" : FORMATS[c.src.bits.fmt].name, i, sp.p8, mp.p8, c.mask_kind, dp.p8, got & dm, want & dm, want8, FORMATS[c.dst.bits.fmt].name));
@@ -277,7 +308,7 @@ static Verdict run_case(const CCase &c) {
     }
     long double wv[4] = {want.a, want.r, want.g, want.b};
     if (is_float(df)) {
-      const float *q = (const float *)di->rowp(0) + (size_t)(c.dst.x + i) * (bpp(df) / 32);
+      const float *q = (const float *)di->rowp(c.dst.y) + (size_t)(c.dst.x + i) * (bpp(df) / 32);
       long double gv[4] = {bpp(df) == 128 ? (long double)q[3] : 1.0L, q[0], q[1], q[2]};
       for (int k = (bpp(df) == 128 ? 0 : 1); k < 4 && v.ok; k++)
         if (fabsl(gv[k] - wv[k]) > 1e-4L)
@@ -285,7 +316,7 @@ static Verdict run_case(const CCase &c) {
                      gv[k], wv[k], sr.a, sr.r, sr.g, sr.b, c.mask_kind, dr.a, dr.r, dr.g, dr.b));
       continue;
     }
-    uint32_t got = raw_get(di->rowp(0), bpp(df), c.dst.x + i);
+    uint32_t got = raw_get(di->rowp(c.dst.y), bpp(df), c.dst.x + i);
     Ch gc = unpack(df, got);
     uint32_t gch[4] = {gc.a, gc.r, gc.g, gc.b};
     long double tol = cls == 2 ? 2.0L + 1e-6L : 1.0L + 1.0L / 64;
@@ -320,7 +351,9 @@ static Verdict run_case(const CCase &c) {
   // every byte of the destination outside the row's addressed pixels must be unchanged (cheap bonus; C03 does it thoroughly)
   if (c.src.solid == 0 && si && si->before.size() == si->buf.size && memcmp(si->before.data(), si->buf.p, si->buf.size) != 0) v.fail("source image was modified");
   if (c.src.solid) pixman_image_unref(s);
-  if (c.mask_kind && c.mask.solid) pixman_image_unref(m);
+  if (c.mask_kind && c.mask.solid && !pixbuf_mask) pixman_image_unref(m);
+  if (pixbuf_mask) pixman_image_unref(pixbuf_mask);
+  if (c.pixbuf) v.label(c.src.x == c.mask.x && c.src.y == c.mask.y ? "pixbuf_same_position" : "pixbuf_different_position");
   bool reads_both = !(c.op == PIXMAN_OP_CLEAR || c.op == PIXMAN_OP_SRC || c.op == PIXMAN_OP_DST || c.op == PIXMAN_OP_DISJOINT_CLEAR || c.op == PIXMAN_OP_DISJOINT_SRC ||
                       c.op == PIXMAN_OP_DISJOINT_DST || c.op == PIXMAN_OP_CONJOINT_CLEAR || c.op == PIXMAN_OP_CONJOINT_SRC || c.op == PIXMAN_OP_CONJOINT_DST);
   v.nontrivial = (reads_both || c.mask_kind) && interesting;
